@@ -274,15 +274,44 @@ def r111(P, u, rep):
 SIMPLE_ESC = {'a': 7, 'b': 8, 'f': 12, 'n': 10, 'r': 13, 't': 9, 'v': 11, '\\': 92, "'": 39, '"': 34, '?': 63, 'e': 27}
 
 
+_EXTRA = {}
+
+
+def _escape_extra_args(u):
+    """read_escaped_char(new_pos, p, ...): parameters after the first two (an element size or a limit handed down by the literal readers) get the
+    LARGEST integer constant that a caller in tokenize.c passes in that position, i.e. the escape is read as inside the widest kind of literal"""
+    fn = 'read_escaped_char'
+    if id(u) in _EXTRA:
+        return list(_EXTRA[id(u)])
+    n = len(u.params(fn))
+    out = []
+    for i in range(2, n):
+        vals = []
+        for f, fd in u.functions.items():
+            for c in fd.calls(fn):
+                a = c.args()
+                if i < len(a):
+                    v = a[i].strip_all().int_value()
+                    if isinstance(v, int):
+                        vals.append(v)
+        if not vals:
+            raise AnalysisBroken('read_escaped_char has a parameter #%d for which no caller passes an integer constant' % (i + 1))
+        out.append(max(vals))
+    _EXTRA[id(u)] = out
+    return list(out)
+
+
 def _escape(P, u, text):
     """read_escaped_char on the characters after the backslash: ('ret', value, consumed) | ('error',)"""
     it = L.CInterp(P, u, {'models': L.make_models()})
     box = {}
 
+    extra = _escape_extra_args(u)
+
     def mk(ctx):
         box['np'] = 0
         box['p'] = L.cstring(text)
-        return [_Ref(VarPlace(box, 'np')), box['p']]
+        return [_Ref(VarPlace(box, 'np')), box['p']] + extra
     ctx, out = L.run1(it, 'read_escaped_char', mk)
     if out[0] == 'crash':
         raise AnalysisBroken('read_escaped_char: %s at %s' % out[1:])
@@ -1833,6 +1862,333 @@ def r1118(P, rep):
         rep.undecided('R11.18', 'parse.c:eval_double:ND_NUM', 'C07 R07.13 issues no obligation for the literal arm of eval_double any more')
 
 
+# ============================================================================ R11.19 ===
+# A literal has the value of its SPELLING (C11 6.4.3, 6.4.4, 6.4.5); where the spelling entered the compiler is not an input of
+# that value.  Text enters in two ways: as a file (tokenize_file, which runs the text phases of 5.1.1.2 and then tokenize) and
+# as the line `name body` that define_macro() makes from a -D option (which has to do for itself what it needs of those phases).
+# Decided differentially: define_macro is interpreted on concrete (name, body) pairs up to the reader of #define (cut: what it
+# makes of the tokens is C09/C10's subject); the tokens it hands over must be the tokens tokenize_file makes of the same line.
+DEFINE_READER = 'read_macro_definition'
+
+
+def _m_format(it, ctx, n, a):
+    """strings.c format(): the text printf prints, for formats whose only conversions are %s and %%"""
+    from ..interp import Unsupported
+    fmt = bytes(L.cbytes(a[0]))
+    out, i, k = b'', 0, 1
+    while i < len(fmt):
+        if fmt[i:i + 1] != b'%':
+            out += fmt[i:i + 1]
+            i += 1
+            continue
+        c = fmt[i + 1:i + 2]
+        if c == b'%':
+            out += b'%'
+        elif c == b's' and k < len(a):
+            out += bytes(L.cbytes(a[k]))
+            k += 1
+        else:
+            raise Unsupported('format(): conversion %r is not modelled' % c)
+        i += 2
+    return L.cstring(out)
+
+
+def _tok_sig(lx_it, u, t):
+    """what a token is for the rest of the compiler: kind, spelling, type, value, code units"""
+    names = {v: k for k, v in u.enums.items() if k.startswith('TK_')}
+    kind = names.get(t.fields.get('kind', 0), '?')
+    sig = L.type_sig(lx_it, t.fields.get('ty', 0))
+    units = None
+    if kind == 'TK_STR' and sig and sig[0] == 'TY_ARRAY' and isinstance(sig[1], int) and sig[2] and sig[2][1] in (1, 2, 4) and 0 < sig[1] < 4096:
+        raw = L.buf_bytes(t.fields.get('str', 0), sig[1])
+        if raw is not None:
+            esz = sig[2][1]
+            units = tuple(int.from_bytes(bytes(raw[i:i + esz]), 'little') for i in range(0, len(raw), esz))
+    val = t.fields.get('val') if kind == 'TK_NUM' else None
+    return (kind, L.tok_text(t), sig, val if isinstance(val, int) else None, units)
+
+
+def _show(bs):
+    """bytes of the compiler's buffers as message text: UTF-8 where it is, control characters (a NUL inside a rewritten buffer) escaped"""
+    return ''.join(c if c >= ' ' and c != '\x7f' else '\\x%02x' % ord(c) for c in (bs or b'').decode('utf-8', 'replace'))
+
+
+def _fmt_sig(s):
+    kind, text, sig, val, units = s
+    d = '%s `%s`' % (kind[3:], _show(text))
+    if units is not None:
+        d += ' = %s' % fmt_units(list(units))
+    elif val is not None:
+        d += ' = %#x' % (val & 0xffffffffffffffff)
+    return d
+
+
+def define_macro_tokens(P, pu, name, body):
+    """tokens define_macro(name, body) hands to the reader of #define: ('ok', [sig...]) | ('error', text) | raises AnalysisBroken"""
+    from ..interp import Unsupported
+    box = {}
+
+    def reader(it, ctx, n, a):
+        box.setdefault('toks', []).append(a[1] if len(a) > 1 else None)
+        return None
+    it = L.CInterp(P, pu, {'models': L.make_models(extra={'format': _m_format}), 'cut': {DEFINE_READER: reader}})
+    try:
+        ctx, out = L.run1(it, 'define_macro', lambda ctx: [L.cstring(name), L.cstring(body)])
+    except Unsupported as e:
+        raise AnalysisBroken('define_macro cannot be followed on a concrete name and body: %s' % e)
+    if out[0] == 'crash':
+        return ('error', 'a %s inside the compiler at %s' % (out[1], out[2]))
+    if out[0] != 'ret':
+        return ('error', 'the diagnostic "%s"' % (out[2][1] if len(out) > 2 and len(out[2]) > 1 else out[1],))
+    if len(box.get('toks', [])) != 1 or box['toks'][0] is None:
+        raise AnalysisBroken('define_macro does not hand one token list to %s() (%d calls)' % (DEFINE_READER, len(box.get('toks', []))))
+    tu = P.unit(TU)
+    return ('ok', [_tok_sig(it, tu, t) for t in L.tokens(it, box['toks'][0])])
+
+
+def r1119(P, u, rep):
+    from ..report import Report, reissue
+    fn = 'define_macro'
+    pu = P.unit(PU)
+    _need(pu, fn, DEFINE_READER)
+    _need(u, 'tokenize_file', 'tokenize')
+    if not any(f != fn and fd.calls(DEFINE_READER) for f, fd in pu.functions.items()):
+        raise AnalysisBroken('%s() is no longer the function a #define directive is read with' % DEFINE_READER)
+    rep.rule('R11.19', 'a literal has the value of its spelling wherever the spelling entered the compiler: the line `name body` of a -D option reaches the reader of #define as the tokens '
+             '(kind, spelling, type, value, code units) that the same line has as the text of a file - universal character names in string literals and character constants of every '
+             'prefix, in identifiers and in the macro name are decoded, escapes, raw UTF-8 text and numbers are read alike (C11 6.4.3, 6.4.4.4, 6.4.5; the option stands for the '
+             'directive); includes the universal-character clauses of C10 R10.11', floor=16)
+    where = _where(pu, fn)
+    e9 = [0xC3, 0xA9]
+    # (key, name, body, expected code units / value of the first body token where the case is about one literal, or None)
+    cases = [
+        ('string-ucn', b'MSG', b'"caf\\u00e9"', ('units', [0x63, 0x61, 0x66] + e9 + [0])),
+        ('string-ucn-U8', b'MSG', b'"\\U0001F363\\U000000e9"', ('units', [0xF0, 0x9F, 0x8D, 0xA3] + e9 + [0])),
+        ('u8-string-ucn', b'MSG', b'u8"\\u3042x"', ('units', [0xE3, 0x81, 0x82, 0x78, 0])),
+        ('utf16-string-ucn-surrogates', b'U16', b'u"\\U0001F363\\u20ac"', ('units', [0xD83C, 0xDF63, 0x20AC, 0])),
+        ('utf32-string-ucn', b'U32', b'U"\\U0001F363\\u00e9"', ('units', [0x1F363, 0xE9, 0])),
+        ('wide-string-ucn', b'WS', b'L"\\u20ac\\U00010000"', ('units', [0x20AC, 0x10000, 0])),
+        ('char-ucn-below-A0', b'C', b"'\\u0040'", ('val', 0x40)),
+        ('utf16-char-ucn', b'C16', b"u'\\u20ac'", ('val', 0x20AC)),
+        ('utf32-char-ucn', b'C32', b"U'\\U0001F363'", ('val', 0x1F363)),
+        ('wide-char-ucn', b'WC', b"L'\\u20ac'", ('val', 0x20AC)),
+        ('identifier-ucn', b'ID', b'x\\u00e9y \\U000000e9', None),
+        ('name-ucn', b'\\u00e9t\\u00E9', b'1', None),
+        ('function-like-name-ucn', b'F(\\u00e9)', b'\\u00e9+"\\u00e9"', None),
+        ('ucn-after-escaped-backslash', b'MSG', b'"\\\\\\u00e9" "\\\\u00e9"', None),
+        ('several-literals', b'M', b'"\\u00e9" u"\\u00e9" \'\\u0024\' L"\\u00e9" x "\\u00E9"', None),
+        ('escapes', b'MSG', b'"a\\n\\x41\\101\\"\\\\" \'\\\'\' L\'\\xfffffff0\' u"\\xbeef"', None),
+        ('utf8-text', b'MSG', b'"caf\xc3\xa9" u"\xf0\x9f\x8d\xa3" U\'\xe3\x81\x82\' \xc3\xa9t\xc3\xa9', None),
+        ('numbers', b'N', b'0x7fffffff 4294967296u 1.5e+3f 0x1p-2 017 .5L', None),
+        ('empty-body', b'E', b'', None),
+    ]
+    concrete_ok = True
+    for key, name, body, want in cases:
+        line = name + b' ' + body + b'\n'
+        k = '%s:%s:same-tokens-as-file-text/%s' % (PU, fn, key)
+        shown = "-D'%s=%s'" % (name.decode('utf-8', 'replace'), body.decode('utf-8', 'replace'))
+        ref = lex(P, u, line, via_file=True)
+        if ref.failed:
+            raise AnalysisBroken('tokenize_file rejects the reference line %r (%s)' % (line, ref.describe(u)))
+        ref_sigs = [_tok_sig(ref.it, u, t) for t in ref.toks]
+        got = define_macro_tokens(P, pu, name, body)
+        ok, msg = True, ''
+        if got[0] != 'ok':
+            ok, msg = False, '%s ends in %s; as the text of a file the line `%s` is tokenized as %s' % (shown, got[1], line.decode('utf-8', 'replace').strip(), ref.describe(u))
+        elif got[1] != ref_sigs:
+            ok = False
+            diff = [(a, b) for a, b in zip(got[1], ref_sigs) if a != b]
+            if diff:
+                a, b = diff[0]
+                detail = 'the reader of #define receives %s where the same line as the text of a file (`#define %s`) gives %s' % (_fmt_sig(a), line.decode('utf-8', 'replace').strip(), _fmt_sig(b))
+                if b'\\u' in (a[1] or b'').lower() and b'\\u' not in (b[1] or b'').lower():
+                    detail += ': the universal character name is not decoded (C11 6.4.3), the literal readers then take the backslash as an unknown escape and keep the letter and the hex digits as separate characters'
+            else:
+                detail = 'the reader of #define receives %d tokens, the same line as the text of a file has %d' % (len(got[1]), len(ref_sigs))
+            msg = '%s: %s; one translation unit then holds two values for one literal spelling' % (shown, detail)
+        elif want is not None:
+            # the agreeing pair must also be RIGHT for the literal the case is about (second token: the first is the macro name)
+            s = got[1][1] if len(got[1]) > 1 else None
+            have = (list(s[4]) if s[4] is not None else None) if (s and want[0] == 'units') else (s[3] if s else None)
+            if have != want[1]:
+                ok = False
+                msg = '%s: the literal becomes %s, both from the option and from a file; C11 6.4.3: %s' % (
+                    shown, _fmt_sig(s) if s else 'no token', fmt_units(want[1]) if want[0] == 'units' else '%#x' % want[1])
+        rep.ob('R11.19', k, ok, msg, where=where)
+        concrete_ok = concrete_ok and ok
+    # the symbolic statement of the same clause (all names and bodies, not only the samples): C10 R10.11, clauses on \u/\U decoding
+    from . import c10
+    sub = Report('C10')
+    try:
+        c10.r1011_define_option(P, sub)
+    except Exception as e:      # another module's rule failing must not take this rule's own verdicts with it
+        rep.undecided('R11.19', '%s:%s:R10.11' % (PU, fn), 'C10 R10.11 could not be evaluated: %s' % e, where=where)
+        return
+    keep = lambda o: o['key'].startswith('R10.11:') and 'ucn-decoded-like-file-text' in o['key']
+    if concrete_ok:
+        # R10.11 follows the line through strdup()/format() and the decoder call symbolically; the concrete runs above follow the real data flow.  Where
+        # every concrete name and body IS decoded but R10.11 does not see the decoding (it went another way than R10.11 can follow), the clause is not
+        # decided for all texts: undecided, not a violation
+        for o in sub.obs:
+            if keep(o) and o['verdict'] not in ('holds', 'known-finding', 'undecided'):
+                o['verdict'] = 'undecided'
+                o['what'] = 'every sampled -D name and body reaches the reader of #define decoded, but the decoding is not seen for all texts: ' + o['what']
+    n = reissue(rep, 'R11.19', sub, 'a universal character name would then have another value in a -D macro body than in a file: ', keep=keep)
+    if n == 0:
+        rep.undecided('R11.19', '%s:%s:R10.11' % (PU, fn), 'C10 R10.11 issues no obligation about the \\u/\\U decoding of the -D line any more', where=where)
+
+
+# ============================================================================ R11.20 ===
+# C11 6.4.4p2 (constraint): the value of a constant shall be in the range of representable values for its type; 6.4.4.1p6: an
+# integer constant that fits no type of its list has no type; 6.4.4.4p9 (constraint): the value of an octal or hexadecimal
+# escape sequence shall be in the range of the unsigned type corresponding to the literal's element type.  A violated
+# constraint needs a diagnostic (5.1.1.3): a reader that keeps the low bits (or a saturated value) silently gives the program
+# a value its text does not have.  "Diagnosed" = the reader ends in error()/error_at()/error_tok() or calls a function of
+# tokenize.c that prints through verror_at (warn_tok) / writes to a stream.
+STREAM_WRITERS = ('fprintf', 'vfprintf', 'fputs', 'fputc', 'fwrite')
+
+
+def _diagnostic_printers(P):
+    return L.diagnostic_printers(P)
+
+
+def _diagnosed(lx_ctx, out, printers):
+    if out[0] == 'noreturn':
+        return True
+    if out[0] != 'ret':
+        return False
+    return any(e[0] == 'call' and (e[1] in printers or e[1] in STREAM_WRITERS or e[1] == 'verror_at') for e in lx_ctx.events)
+
+
+def r1120(P, u, rep):
+    fn = 'tokenize'
+    _need(u, fn, 'convert_pp_number', 'read_escaped_char')
+    rep.rule('R11.20', 'a constant or escape sequence whose value is not representable is diagnosed, never silently reduced: octal/hexadecimal escapes above the range of the element type of '
+             'the string literal or character constant they stand in (char 0xFF, char16_t 0xFFFF, char32_t/wchar_t 0xFFFFFFFF; C11 6.4.4.4p9), integer constants of 2^64 and above in every '
+             'base and with every suffix, and decimal constants without u suffix from 2^63 (no type of the list of 6.4.4.1p5 holds them; 6.4.4p2, 6.4.4.1p6); the largest representable '
+             'spelling of each kind is accepted without a diagnostic', floor=17)
+    printers = _diagnostic_printers(P)
+    cfg = {'opaque': list(printers) + list(STREAM_WRITERS) + ['verror_at']}
+    where = _where(u, 'read_escaped_char')
+    z = '0' * 12
+    # (key, source, range text, value the text names)
+    esc_bad = [
+        ('string/octal-400', '"\\400"', 'char: 0..0xFF', 0o400), ('string/octal-777', '"a\\777b"', 'char: 0..0xFF', 0o777), ('string/hex-100', '"\\x100"', 'char: 0..0xFF', 0x100),
+        ('string/hex-many-digits', '"\\x%s141"' % z, 'char: 0..0xFF', 0x141), ('u8-string/hex-100', 'u8"\\x100"', 'char: 0..0xFF', 0x100), ('u8-string/octal-400', 'u8"\\400"', 'char: 0..0xFF', 0o400),
+        ('utf16-string/hex-10000', 'u"\\x10000"', 'char16_t: 0..0xFFFF', 0x10000), ('utf16-string/hex-12345', 'u"a\\x12345"', 'char16_t: 0..0xFFFF', 0x12345),
+        ('utf32-string/hex-100000000', 'U"\\x100000000"', 'char32_t: 0..0xFFFFFFFF', 1 << 32), ('utf32-string/hex-17-digits', 'U"\\x10000000000000041"', 'char32_t: 0..0xFFFFFFFF', (1 << 64) + 0x41),
+        ('wide-string/hex-100000000', 'L"\\x100000000"', 'wchar_t: 32 bits', 1 << 32), ('wide-string/hex-123456789', 'L"z\\x123456789"', 'wchar_t: 32 bits', 0x123456789),
+        ('char/octal-400', "'\\400'", 'char: 0..0xFF', 0o400), ('char/hex-100', "'\\x100'", 'char: 0..0xFF', 0x100), ('char/hex-12345', "'\\x12345'", 'char: 0..0xFF', 0x12345),
+        ('utf16-char/hex-10000', "u'\\x10000'", 'char16_t: 0..0xFFFF', 0x10000), ('utf16-char/hex-12345', "u'\\x12345'", 'char16_t: 0..0xFFFF', 0x12345),
+        ('utf32-char/hex-100000000', "U'\\x100000000'", 'char32_t: 0..0xFFFFFFFF', 1 << 32), ('utf32-char/hex-17-digits', "U'\\x10000000000000041'", 'char32_t: 0..0xFFFFFFFF', (1 << 64) + 0x41),
+        ('wide-char/hex-100000000', "L'\\x100000000'", 'wchar_t: 32 bits', 1 << 32), ('wide-char/hex-123456789', "L'\\x123456789'", 'wchar_t: 32 bits', 0x123456789),
+    ]
+    groups = {}
+    for key, src, rng, val in esc_bad:
+        kind = key.split('/')[0]
+        cur = groups.setdefault(kind, [True, ''])
+        lx = lex(P, u, src + '\n', cfg=cfg)
+        if lx.crash:
+            raise AnalysisBroken('tokenize(%s): %s' % (src, lx.describe(u)))
+        if _diagnosed(lx.ctx, lx.out, printers) or not cur[0]:
+            continue
+        what = 'nothing'
+        t = lx.toks[0] if lx.toks else None
+        if t is not None and lx.kinds(u)[0] == 'TK_STR':
+            st = str_token(lx, t)
+            what = 'an array holding %s' % fmt_units(st[1]) if st else 'a string token'
+        elif t is not None:
+            v = t.fields.get('val')
+            what = 'the constant %s' % ('%#x' % (v & 0xffffffffffffffff) if isinstance(v, int) else repr(v))
+        cur[0] = False
+        cur[1] = ('%s is accepted without a diagnostic and becomes %s: the escape names the value %#x, outside the range of the element type (%s); C11 6.4.4.4p9 is a constraint '
+                  '(gcc: "escape sequence out of range")' % (src, what, val, rng))
+    if len(groups) < 9:
+        raise AnalysisBroken('escape sample set collapsed')
+    for kind, (ok, msg) in sorted(groups.items()):
+        rep.ob('R11.20', '%s:%s:escape-out-of-range-diagnosed/%s' % (TU, fn, kind), ok, msg, where=where)
+    esc_good = ['"\\377\\xff\\0"', 'u8"\\xff"', 'u"\\xffff"', 'U"\\xffffffff"', 'L"\\xffffffff"', "'\\377'", "'\\xff'", "u'\\xffff'", "U'\\xffffffff'", "L'\\xffffffff'",
+                "L'\\x%sffffffff'" % z, '"\\x%sff"' % z]
+    ok, msg = True, ''
+    for src in esc_good:
+        lx = lex(P, u, src + '\n', cfg=cfg)
+        if (lx.failed or _diagnosed(lx.ctx, lx.out, printers)) and ok:
+            ok, msg = False, '%s (every escape within the range of its element type) is %s' % (src, ('rejected: ' + lx.describe(u)) if lx.failed else 'diagnosed')
+    rep.ob('R11.20', '%s:%s:escape-in-range-accepted-silently' % (TU, fn), ok, msg, where=where)
+
+    # integer constants
+    wi = _where(u, 'convert_pp_int')
+    tk_pp = u.enums.get('TK_PP_NUM', 0)
+
+    def conv(text):
+        it = L.CInterp(P, u, dict(cfg, models=L.make_models()))
+        box = {}
+
+        def mk(ctx):
+            t = Obj('Token', lazy=False, label='tok')
+            t.fields['loc'] = L.cstring(text + ' ;')
+            t.fields['len'] = len(text)
+            t.fields['kind'] = tk_pp
+            t.fields['line_no'] = 1
+            f = Obj('File', lazy=False)
+            f.fields['name'] = 'x.c'
+            f.fields['contents'] = t.fields['loc']
+            t.fields['file'] = f
+            box['t'] = t
+            return [t]
+        ctx, out = L.run1(it, 'convert_pp_number', mk)
+        return it, ctx, out, box['t']
+    two64 = 1 << 64
+    big = [('decimal', '%d' % two64), ('decimal-u', '%du' % two64), ('decimal-ul', '%dUL' % (two64 + 12345)), ('decimal-ull', '99999999999999999999999ull'), ('decimal-ll', '%dll' % two64),
+           ('hex', '0x1%s' % ('0' * 16)), ('hex-u', '0xffffffffffffffff0u'), ('hex-l', '0X1%sL' % ('0' * 16)), ('hex-ull', '0x123456789abcdef01ull'),
+           ('octal', '02%s' % ('0' * 21)), ('octal-u', '0%ou' % (two64 * 8 + 1)), ('binary', '0b1%s' % ('0' * 64)), ('binary-ul', '0B1%s1ul' % ('0' * 64))]
+    groups = {}
+    for key, text in big:
+        cur = groups.setdefault(key.split('-')[0], [True, ''])
+        it, ctx, out, t = conv(text)
+        if _diagnosed(ctx, out, printers) or not cur[0]:
+            continue
+        v = t.fields.get('val')
+        fl = t.fields.get('fval')
+        sig = L.type_sig(it, t.fields.get('ty', 0))
+        became = 'the floating constant %r' % (fl,) if sig and sig[0] in ('TY_DOUBLE', 'TY_FLOAT', 'TY_LDOUBLE') else \
+            'the value %s of type %s' % ((v & (two64 - 1)) if isinstance(v, int) else repr(v), TYN.get(sig, sig))
+        cur[0] = False
+        cur[1] = ('the integer constant %s is accepted without a diagnostic and becomes %s; no integer type holds its value: C11 6.4.4p2 is a constraint, and a conversion that saturates '
+                  '(strtoul returns ULONG_MAX and sets errno to ERANGE) gives the program a value its text does not have (gcc: "integer constant is too large for its type")' % (text, became))
+    if len(groups) < 4:
+        raise AnalysisBroken('integer sample set collapsed')
+    for base_, (ok, msg) in sorted(groups.items()):
+        rep.ob('R11.20', '%s:convert_pp_int:integer-constant-above-64-bits-diagnosed/%s' % (TU, base_), ok, msg, where=wi)
+    notype = [('no-suffix', '9223372036854775808'), ('no-suffix', '18446744073709551615'), ('l-suffix', '9223372036854775808l'), ('l-suffix', '12345678901234567890LL')]
+    groups = {}
+    for key, text in notype:
+        cur = groups.setdefault(key, [True, ''])
+        it, ctx, out, t = conv(text)
+        if _diagnosed(ctx, out, printers) or not cur[0]:
+            continue
+        sig = L.type_sig(it, t.fields.get('ty', 0))
+        v = t.fields.get('val')
+        cur[0] = False
+        cur[1] = ('the decimal constant %s is accepted without a diagnostic as a constant of type %s with value %s; the list of C11 6.4.4.1p5 for a decimal constant without u ends at long long, '
+                  'which does not hold it: the constant has no type (6.4.4.1p6, constraint 6.4.4p2; gcc: "integer constant is so large that it is unsigned")' % (
+                      text, TYN.get(sig, sig), (v - two64 if isinstance(v, int) and v >= 1 << 63 else v)))
+    for key, (ok, msg) in sorted(groups.items()):
+        rep.ob('R11.20', '%s:convert_pp_int:decimal-constant-above-long-diagnosed/%s' % (TU, key), ok, msg, where=wi)
+    ok, msg = True, ''
+    for text, val, ty in (('18446744073709551615u', two64 - 1, ULONG), ('0xffffffffffffffff', two64 - 1, ULONG), ('01777777777777777777777', two64 - 1, ULONG),
+                          ('9223372036854775807', (1 << 63) - 1, LONG), ('0b%s' % ('1' * 64), two64 - 1, ULONG), ('0x%sffffffffffffffffull' % z, two64 - 1, ULONG),
+                          ('18446744073709551615ULL', two64 - 1, ULONG), ('0x8000000000000000', 1 << 63, ULONG), ('9223372036854775807l', (1 << 63) - 1, LONG)):
+        it, ctx, out, t = conv(text)
+        v = t.fields.get('val')
+        sig = L.type_sig(it, t.fields.get('ty', 0))
+        bad = out[0] != 'ret' or _diagnosed(ctx, out, printers) or not isinstance(v, int) or (v & (two64 - 1)) != val or sig != ty
+        if bad and ok:
+            ok, msg = False, 'the integer constant %s (representable: value %d, type %s) %s' % (text, val, TYN[ty], 'is rejected' if out[0] != 'ret' else (
+                'is diagnosed' if _diagnosed(ctx, out, printers) else 'becomes %r of type %s' % (v, TYN.get(sig, sig))))
+    rep.ob('R11.20', '%s:convert_pp_int:largest-representable-accepted-silently' % TU, ok, msg, where=wi)
+
+
 def run(P, rep, tier):
     u = P.unit(TU)
     rep.explanation = ('The literal readers of tokenize.c/unicode.c/preprocess.c are interpreted (Engine I) on the spellings of the C11 literal grammar. '
@@ -1853,6 +2209,10 @@ def run(P, rep, tier):
                        'class, in both forms and digit cases, including the three names below 0xA0 that C11 6.4.3p2 permits ($ @ `), and those three through the whole pipeline in every literal kind. '
                        'Floating constants (R11.10, R11.18): the value stored into the token must be the result of the conversion function of the constant\'s own type (strtof / strtod / strtold) '
                        'on the whole spelling, never narrowed on its way; the folder\'s literal arm rounds to the literal\'s type (C07 R07.13 re-issued). '
+                       'Origin of the spelling (R11.19): define_macro is run on concrete -D names and bodies up to the reader of #define; the tokens handed over (kind, spelling, type, value, code units) '
+                       'must be those tokenize_file makes of the same line; the \\u/\\U clauses of C10 R10.11 (all texts, symbolically) are re-issued. '
+                       'Range (R11.20): escapes above the range of the element type in every kind of literal, integer constants from 2^64 in every base (strtoul modelled with ERANGE), and decimal constants '
+                       'without u from 2^63 must end in a diagnostic (error*, or a function of tokenize.c that prints through verror_at and returns); the largest representable spellings must pass silently. '
                        'Not decided: strtoul/strtof/strtod/strtold themselves, code points other than the sampled ones, universal character names that 6.4.3p2 forbids.')
     rep.assumptions += ['libc functions behave as ISO C 7.4/7.22/7.24 specify (python models)', 'x86-64: char is signed, LP64',
                         'UTF-8/UTF-16 oracles are python\'s codecs (RFC 3629 / RFC 2781)',
@@ -1862,7 +2222,7 @@ def run(P, rep, tier):
                     ('R11.5', lambda: r115(P, u, rep)), ('R11.6', lambda: r116(P, u, rep)), ('R11.7', lambda: r117(P, u, rep)),
                     ('R11.8', lambda: r118(P, u, rep)), ('R11.9', lambda: r119(P, u, rep)), ('R11.10', lambda: r1110(P, u, rep)), ('R11.11', lambda: r1111(P, rep)), ('R11.12', lambda: r1112(P, u, rep)),
                     ('R11.13', lambda: r1113(P, u, rep)), ('R11.14', lambda: r1114(P, u, rep)), ('R11.15', lambda: r1115(P, u, rep)), ('R11.16', lambda: r1116(P, u, rep)),
-                    ('R11.17', lambda: r1117(P, u, rep)), ('R11.18', lambda: r1118(P, rep))):
+                    ('R11.17', lambda: r1117(P, u, rep)), ('R11.18', lambda: r1118(P, rep)), ('R11.19', lambda: r1119(P, u, rep)), ('R11.20', lambda: r1120(P, u, rep))):
         try:
             f()
         except AnalysisBroken as e:
